@@ -153,6 +153,11 @@ def classify(obs, allowed, program):
         return (obs[1], "execution aborted: %s" % (obs[1],))
     results = obs[0]
     threads = program["threads"]
+    only = program.get("only_kinds")
+    if only and "lock-held" in only and obs[4] != 0 and not any(a[4] == obs[4] for a in allowed):
+        # a program that is only about locks: a lock left held is the finding, whatever else went wrong on the way
+        # (typically an exception raised by releasing the wrong lock)
+        return ("lock-held", "%d library locks still held after all threads finished (results %r)" % (obs[4], results))
     for i, r in enumerate(results):
         for j, o in enumerate(r):
             if o is not None and o[0] == "exc":
@@ -264,7 +269,9 @@ def make_violation(program, v, bound, reduction):
                                    "ctx": program.get("ctx"), "threads": repr(program["threads"]),
                                    "setup": repr(program.get("setup", ())),
                                    "pair": program["pair"], "topology": program.get("topology"),
-                                   "property": program["property"], "module": program["module"]},
+                                   "property": program["property"], "module": program["module"],
+                                   "only_kinds": list(program["only_kinds"]) if program.get("only_kinds") else None,
+                                   "final_views": program.get("final_views", True)},
                        "schedule": v["schedule"], "bound": bound, "reduction": reduction,
                        "kind": v["kind"]}}
 
@@ -274,7 +281,9 @@ def program_from_doc(d):
 
     return {"label": d["label"], "cfg": cfg_from_doc(d["cfg"]), "ctx": tuple(d["ctx"]) if d.get("ctx") else None,
             "threads": _lit(d["threads"]), "setup": _lit(d.get("setup", "()")), "pair": d["pair"],
-            "topology": d.get("topology"), "property": d["property"], "module": d["module"]}
+            "topology": d.get("topology"), "property": d["property"], "module": d["module"],
+            "only_kinds": tuple(d["only_kinds"]) if d.get("only_kinds") else None,
+            "final_views": d.get("final_views", True)}
 
 
 def replay_sched(doc):
